@@ -1,6 +1,7 @@
 import PromModel.Tsdb.Intervals
+import PromProofs.IntervalsAdd
 /-
-  C20 — Deletion removes exactly the requested data (mechanism level: `Intervals.Add`).
+  C20 — Deletion removes exactly the requested data (mechanism level).
   Property theorems only; helper lemmas live in PromProofs.
 -/
 namespace Prom.C20
@@ -17,5 +18,42 @@ theorem add_after_fix_witness :
 /-- Adding to the empty set yields the singleton. -/
 theorem add_empty (n : Interval) : add [] n = .ok [n] := by
   simp [add, addG]
+
+/-- Specification of the transcribed `sort.Search(n, f)` for a monotone predicate: it returns the
+    least index in `[0,n)` satisfying `f`, or `n` if there is none. -/
+theorem goSearch_least (n : Nat) (f : Nat → Bool)
+    (mono : ∀ a b, a ≤ b → b < n → f a = true → f b = true) :
+    (goSearch n f = n ∧ ∀ k, k < n → f k = false) ∨
+    (goSearch n f < n ∧ f (goSearch n f) = true ∧ ∀ k, k < goSearch n f → f k = false) :=
+  Prom.Intervals.goSearch_least n f mono
+
+example : goSearch 5 (fun i => decide (3 ≤ i)) = 3 := by decide
+example : goSearch 5 (fun _ => false) = 5 := by decide
+
+/--
+  `Intervals.Add` (current code, after the F1 fix), for ALL canonical sets with int64 endpoints and
+  ALL valid int64 intervals — no guard on `MaxInt64`/`MinInt64`: it does not panic, the result is
+  canonical (sorted, non-overlapping, non-adjacent) and covers exactly the old coverage plus the
+  requested range.
+-/
+theorem add_canonical (xs : Intervals) (n : Interval)
+    (hc : Canon xs) (hxs : ∀ x ∈ xs, I64 x.mint ∧ I64 x.maxt) (_hn : I64 n.mint ∧ I64 n.maxt)
+    (hv : n.mint ≤ n.maxt) :
+    ∃ ys, add xs n = .ok ys ∧ Canon ys ∧
+      ∀ t, covers ys t ↔ covers xs t ∨ (n.mint ≤ t ∧ t ≤ n.maxt) :=
+  add_correct xs n hc hxs hv
+
+/-- Hypotheses of `add_canonical` are met by a non-trivial state at both int64 extremes
+    (merge of two intervals, `maxt = MaxInt64`; the F1 input). -/
+example : Canon [⟨MinI64, 2⟩, ⟨10, 20⟩] ∧ (∀ x ∈ ([⟨MinI64, 2⟩, ⟨10, 20⟩] : Intervals), I64 x.mint ∧ I64 x.maxt) ∧
+    (I64 (5 : Int) ∧ I64 MaxI64) ∧ (5 : Int) ≤ MaxI64 ∧
+    add [⟨MinI64, 2⟩, ⟨10, 20⟩] ⟨5, MaxI64⟩ = .ok [⟨MinI64, 2⟩, ⟨5, MaxI64⟩] := by
+  refine ⟨by decide, ?_, ?_, ?_, by rfl⟩ <;> simp [I64, MinI64, MaxI64]
+
+/-- The int64 range of all endpoints is preserved (so `add_canonical` can be iterated). -/
+theorem add_in_range (xs ys : Intervals) (n : Interval)
+    (hxs : ∀ x ∈ xs, I64 x.mint ∧ I64 x.maxt) (hn : I64 n.mint ∧ I64 n.maxt)
+    (h : add xs n = .ok ys) : ∀ y ∈ ys, I64 y.mint ∧ I64 y.maxt :=
+  add_range xs ys n hxs hn h
 
 end Prom.C20
